@@ -171,6 +171,11 @@ TempOneAfterAnnealing == (st \in {"run", "done"} /\ AnnOn(cfg) /\ NPlateau(cfg) 
                            /\ (k > NAnn(cfg) \/ (k = NAnn(cfg) /\ phase \in {"cooled", "logged", "idle"})))
                           => Temp = One      \* literally one, not merely equal as a fraction
 NoAnnealingIsOne == (st \in {"run", "done"} /\ ~AnnOn(cfg)) => Temp = One
+\* the number of decrements in closed form (the inductive invariant that AnnealInd.tla proves for arbitrary parameters with
+\* Apalache, checked here on the variables of this specification): floor(min(k, nAnn) / period) once iteration k has cooled
+MinOf(a, b) == IF a < b THEN a ELSE b
+DecrementsClosedForm == (st \in {"run", "done"} /\ AnnOn(cfg) /\ NPlateau(cfg) >= 2 /\ Period(cfg) > 0 /\ phase \in {"cooled", "logged", "idle"})
+                          => j = MinOf(k, NAnn(cfg)) \div Period(cfg)
 \* C19 / C11: a configuration that was not refused runs to completion
 AcceptedCompletes == st # "crashed"
 Termination == <>(st \in {"done", "refused", "crashed"})
